@@ -93,6 +93,7 @@ func (l *c08log) Printf(format string, args ...interface{}) {
 
 // c08client: the observer of one connection.
 type c08client struct {
+	id      int
 	conn    *c08conn
 	seen    int // bytes of conn.out already tokenised
 	ntag    int
@@ -121,6 +122,8 @@ func (cl *c08client) run(kind byte, cmd string) (status string, searchHits []int
 	cl.ntag++
 	tag := "T" + string(rune('0'+cl.ntag/10)) + string(rune('0'+cl.ntag%10))
 	cl.conn.in = append(cl.conn.in, tag+" "+cmd+"\r\n"...)
+	from := len(cl.conn.out)
+	defer func() { nd.Note("cmd", cl.id, tag+" "+cmd, string(cl.conn.out[from:])) }()
 	for spins := 0; spins < 20000; spins++ {
 		out := cl.conn.out
 		for {
@@ -225,7 +228,7 @@ func VerifC08History() {
 	for i := 0; i < S; i++ {
 		c := &c08conn{}
 		ln.conns = append(ln.conns, c)
-		cls = append(cls, &c08client{conn: c})
+		cls = append(cls, &c08client{id: i, conn: c})
 	}
 	srv.Serve(ln)
 	// prologue: everybody logs in and selects m, and learns the UIDs
@@ -240,7 +243,7 @@ func VerifC08History() {
 	// symbolic history
 	for step := 0; step < L; step++ {
 		cl := cls[nd.Choice(S)]
-		n := 1 + nd.Choice(4) // message number 1..4 (may exceed the count)
+		n := 1 + nd.Choice(nd.Param("nmax")) // message number 1..nmax (may exceed the count)
 		ns := c08itoa(n)
 		switch nd.Choice(12) {
 		case 0:
